@@ -51,6 +51,8 @@ CopyJudge(ln, c) ==
   /\ ln.src_bytes_after = c.bytes                       \* modifying and releasing the copy leaves the source alone
   /\ WithRc(ln.src_final) = WithRc(c.tree)
   /\ ln.cp3_bytes = c.bytes /\ AllRcOne(ln.cp3)         \* a copy survives the release of what it was copied from
+  /\ WithRc(ln.src_after_fault) = WithRc(c.tree)       \* a copy that ran into a refused allocation leaves the source alone too
+  /\ (ln.fault_hit => ln.fault_copy_null)
 
 Init == l = 1 /\ cur = <<>>
 Ser == /\ l <= Len(TraceLog) /\ Ln.e = "ser"
